@@ -56,6 +56,8 @@ static const char *const T_C02[] = {
 	"S0 | 30 | a0",
 	"I0 | a0 s0 | a0",
 	"G0 S1>0 | a1 s1 | a1",
+	"slow; S0 | a0 a0 s0 | a0 w0",
+	"slow; S0 | a0 B0 | s0 a0",
 	0
 };
 QP_HARNESS(h_q02, "q02", "C02", T_C02, 0);
@@ -91,6 +93,9 @@ static const char *const T_C03[] = {
 	"S0 C1>0 C2>1 | a2 s2 | a1",
 	"S0 C1>0 C2>1 | b2 s2 | s1",
 	"S0 C1>0 C2>1 S3>2 | b2 | s3 | a0",
+	"slow; S0 C1>0 C2>0 | a1 a1 | a2 s2",
+	"slow; S0 C1>0 C2>1 | a2 a2 s2 | a1 b1",
+	"slow; W0 C1>0 | a1 a1 | a1 w0",
 	0
 };
 QP_HARNESS(h_q03, "q03", "C03", T_C03, 0);
@@ -117,6 +122,11 @@ static const char *const T_C04[] = {
 	"N0 | a0 a0 a0 | B0",
 	"N0 | A0 | b0",
 	"N0 | s0 | s0 | B0",
+	// slow items: every overlap the queue permits is reached at k=0, barriers must still exclude
+	"slow; C0 | a0 b0 a0 | a0",
+	"slow; C0 | a0 a0 | B0 a0",
+	"slow; N0 | a0 a0 b0 | a0",
+	"slow; C0 | A0 | b0 a0",
 	0
 };
 QP_HARNESS(h_q04, "q04", "C04", T_C04, 0);
